@@ -297,6 +297,8 @@ static bool body_mat(const Case &c, Ctx &ctx)
         }
         if (maxnc >= 2) ctx.nt("mat:>=2-noncanonical-products-in-a-lane"); else if (maxnc == 1) ctx.nt("mat:1-noncanonical-product"); else if (nc_state) ctx.nt("mat:noncanonical-state"); else ctx.cls("mat:all-canonical");
         { int nz = 0; for (int i = 0; i < 12; i++) if (st[0][i] % PR) nz++; if (nz <= 4) ctx.cls("mat:sparse-state(<=4-non-zero)"); }
+        if (!k->eight) { uint64_t orc = 0; for (int i = 0; i < k->ncoef; i++) orc |= co[i].fe; int bits = orc ? 64 - __builtin_clzll(orc) : 0;
+            if (bits > 8 && bits <= 32) ctx.nt("mat:all-coefficients-fit-32-bits(>8)"); else if (bits > 32 && bits < 64) ctx.cls("mat:all-coefficients-below-2^63"); else if (bits <= 8) ctx.cls("mat:all-coefficients-fit-8-bits"); }
         if (want_aligned) ctx.cls("mat:aligned-variant"); else ctx.cls(misalign ? "mat:misaligned-array" : "mat:array-ends-at-guard-page");
     }
     bool ok = true; std::string why;
@@ -424,6 +426,17 @@ static rc::Gen<std::vector<uint64_t>> gen_mat(const MKern *k)
                 if (S == 2) v[12 + t] = ((mode >> (32 + t)) & 1) ? x : (sparse ? 0 : extra[40 + t]);
                 if (crafted || S == 2) v[12 * S + 12 * row + t] = m;
             }
+            return v;
+        }
+        if (!eight && (mode >> 60) % 5 == 1) {
+            // coefficient-width bands: every coefficient of the array below 2^w (top-heavy inside the band) against large state elements --
+            // the shapes for which a kernel specialised for "short" coefficients is tempting (w around 8, 16, 31, 32, 33)
+            static const int W[] = {8, 9, 16, 24, 30, 31, 32, 32, 33, 40, 48, 63};
+            const int w = W[(mode >> 8) % 12];
+            for (int i = 0; i < nc; i++) { uint64_t e = extra[i % extra.size()], top = ((uint64_t)1 << w) - 1;
+                v[12 * S + i] = (e & 3) == 0 ? top - ((e >> 8) % 16) : (e & 3) == 1 ? (((uint64_t)1 << (w - 1)) | ((e >> 8) & (top >> 1))) : top - ((e >> 8) & (top >> 3)); }
+            for (int s = 0; s < S; s++) for (int t = 0; t < 12; t++) { uint64_t e = extra[(40 + 12 * s + t) % extra.size()], x = ps[t].first;
+                v[12 * s + t] = (e & 3) == 0 ? (0xFFFFFFFF00000000ull | (e >> 32)) : (e & 3) == 1 ? PR - 1 - ((e >> 8) % 1000) : (e & 3) == 2 ? (x | 0xC000000000000000ull) : x; }
             return v;
         }
         // mode: which row's coefficients are solved against the state (others independent draws from extra)
